@@ -36,6 +36,10 @@ type caseSpec struct {
 	Saved map[string]int64 // continue: entry of the offsets file (nil: none)
 	Wake  []byte           // Wake[k] for k>=1: 'm' maintenance, 'n' create notification, 'w' write notification
 
+	// NotifyAt[k] > 0: a write notification for the file is processed by the
+	// provider right after the NotifyAt[k]-th read of round k (single-file groups only)
+	NotifyAt []int
+
 	cont []byte  // cache: concatenation of Parts
 	sz   []int64 // cache: file size after each part
 }
